@@ -18,6 +18,11 @@ func init() { core.Register(c12{}) }
 
 func (c12) ID() string { return "C12" }
 
+// EvalFeatures names the counters of judged executions.
+func (c12) EvalFeatures() []string {
+	return []string{"paths", "stop-with-words-reported-the-end", "stop-with-words-refused"}
+}
+
 func (c12) Cases(tier string) int {
 	if tier == "thorough" {
 		return 120000
